@@ -423,3 +423,43 @@ def teardown(*streams):
     for s in streams:
         if s is not None and not s.closed():
             s.close()
+
+
+# --------------------------------------------------------------------------- reference-side frame factory
+class MaskCycle:
+    """Masking keys for the reference client: the generated keys are used cyclically."""
+
+    def __init__(self, masks):
+        self.masks, self.i = [bytes(m) for m in masks], 0
+
+    def next(self):
+        m = self.masks[self.i % len(self.masks)]
+        self.i += 1
+        return m
+
+
+class RefEncoder:
+    """Frames as the reference peer of the given role sends them (client: masked, server: not)."""
+
+    def __init__(self, role, masks=(b"\x37\xfa\x21\x3d",), deflater=None):
+        self.role = role
+        self.masks = MaskCycle(masks) if role == "client" else None
+        self.deflater = deflater
+
+    def frame(self, opcode, payload=b"", **kw):
+        if "mask" not in kw:
+            kw["mask"] = self.masks.next() if self.masks else None
+        return wsref.encode_frame(opcode, payload, **kw)
+
+    def message(self, opcode, data, cuts=(), compress=False, flush=None, gap_frames=None):
+        """One valid message; cuts are permille of the on-wire payload; gap_frames: {gap index: [bytes]}."""
+        compressed = self.deflater is not None and compress
+        body = self.deflater.compress_message(data, flush) if compressed else bytes(data)
+        frags = wsref.split_at(body, sorted(len(body) * c // 1000 for c in cuts))
+        out = bytearray()
+        for i, frag in enumerate(frags):
+            out += self.frame(opcode if i == 0 else wsref.OP_CONT, frag, fin=(i == len(frags) - 1), rsv1=(compressed and i == 0))
+            if gap_frames and i < len(frags) - 1:
+                for fr in gap_frames.get(i, []):
+                    out += fr
+        return bytes(out), {"compressed": compressed, "fragments": len(frags), "wire_len": len(out)}
